@@ -856,9 +856,9 @@ def check_C02(ctx):
         rnd.append((c, q, alone))
     # keys that look like paths, differ in case only, or carry blanks: a path is successive exact lookups, nothing else
     odd = obj({'a.b': I(1), 'a': {'b': I(2), 'B': I(3), 'b.c': I(4), 'b ': I(5), '': I(6)}, 'A': {'b': I(7)}, 'a.b.c': I(8), 'a b': I(9), '': {'': I(10)}, 'x': {'y.z': I(11), 'y': {'z': I(12)}},
-               'a-b': I(13), 'a_b': I(14), 'a:b': I(15), 'a-b.c': I(16), 'n1': {'2': I(17)}})
+               'a-b': I(13), 'a_b': I(14), 'a:b': I(15), 'a-b.c': I(16), 'n1': {'2': I(17)}, 'Ab': I(18), 'aB': I(19), 'AB': {'c': I(20)}, 'abc ': I(21)})
     for t in ['a.b eq 1', 'a.b eq 2', 'A.b eq 7', 'a.B eq 3', 'A.B eq 3', 'a.b.c eq 8', 'a.b.c eq 4', 'a.b.c pr', 'x.y.z eq 11', 'x.y.z eq 12', 'a-b eq 13', 'a_b eq 14', 'a:b eq 15',
-              'a-b.c eq 16', 'a-b.c pr', 'a.b pr and A.b pr', 'a.b eq 2 and x.y.z eq 12', 'a.b eq 1 or a.b.c eq 8', 'n1.2 pr', 'a.b ne 1', 'A.b ne 2', 'a.b in [1]', 'a.b in [2]']:
+              'a-b.c eq 16', 'a-b.c pr', 'a.b pr and A.b pr', 'a.b eq 2 and x.y.z eq 12', 'a.b eq 1 or a.b.c eq 8', 'n1.2 pr', 'a.b ne 1', 'A.b ne 2', 'a.b in [1]', 'a.b in [2]', 'ab eq 18', 'ab eq 19', 'ab pr', 'ab.c eq 20', 'AB.c eq 20', 'abc eq 21', 'A.B eq 7', 'a.B eq 2', 'A.b eq 2']:
         cs.eval(t, odd, 'odd-keys')
     # size and shape beyond small random rules (harness/scale.py)
     deep_groups = []
